@@ -32,12 +32,17 @@ CT_UNK   == "application/x-unknown-thing"
 \* content types select the PART CLASS the loader builds (pptx/__init__.py registers them): slide parts (XML), plain parts, and - for
 \* the .bin names - an image type: image parts compare and hash by their own rules, and several parts may hold the same bytes
 CT_IMG   == "image/png"
+\* ... a type the library has no class for that ENDS IN "+xml" (an SVG picture: an opaque payload that happens to be XML - it is kept
+\* byte for byte, DOCTYPE, entities and comments included), and the type of a macro-enabled embedded workbook (a sibling of a type the
+\* library does have a class for)
+CT_SVG   == "image/svg+xml"
+CT_XLSM  == "application/vnd.ms-excel.sheet.macroEnabled.12"
 TypesFor(c) == CASE c \in {1, 2, 5} -> <<CT_SLIDE, CT_XML>>
-                 [] c \in {3, 4, 7} -> <<CT_PRN_P, CT_PRN_S, CT_IMG>>
+                 [] c \in {3, 4, 7} -> <<CT_PRN_P, CT_PRN_S, CT_IMG, CT_SVG, CT_XLSM>>
                  [] OTHER           -> <<CT_UNK>>
 \* payload tokens: X/Y canonical classes of two different slide documents (several spellings each,
 \* chosen by the driver), B0 empty bytes, B1/B2 binary strings
-PayloadsFor(t) == IF t = CT_SLIDE THEN <<"X", "Y">> ELSE IF t = CT_XML THEN <<"G1", "G2">> ELSE <<"B1", "B0", "B2">>
+PayloadsFor(t) == IF t = CT_SLIDE THEN <<"X", "Y">> ELSE IF t = CT_XML THEN <<"G1", "G2">> ELSE IF t = CT_SVG THEN <<"BS", "B1">> ELSE <<"B1", "B0", "B2">>
 RelTypes == <<"http://example.invalid/rel/one", "http://example.invalid/rel/two">>
 IdTable  == << <<"rId1", "rId2", "rId3", "rId4", "rId5", "rId6">>,
                <<"foo", "rId7", "bar9", "rId07", "x", "rId3">> >>
